@@ -98,12 +98,14 @@ class Closure:
 
 class Frame:
     __slots__ = ('info', 'locals', 'enclosing', 'gen', 'first_arg', 'defcls', 'loop_counter', 'call_counter',
-                 'reduce_counter', 'reduce_site', 'join_counter', 'model_site', 'loop_index', 'map_counter', 'assumed', 'proving')
+                 'reduce_counter', 'reduce_site', 'join_counter', 'model_site', 'loop_index', 'map_counter',
+                 'undeclared_loop_names', 'assumed', 'proving')
 
     def __init__(self, info, locals_, enclosing, first_arg=None, defcls=None):
         self.info = info
         self.locals = locals_
         self.enclosing = enclosing      # list of dicts, innermost last
+        self.undeclared_loop_names = set()      # names assigned in a loop that its specification does not declare
         self.gen = None
         self.first_arg = first_arg
         self.defcls = defcls
@@ -295,6 +297,9 @@ class Interp:
         if name in frame.locals:
             return frame.locals[name]
         if name in info.local_names:
+            if name in getattr(frame, 'undeclared_loop_names', ()):
+                raise Unsupported('the loop carries a value in %r, which its specification does not declare '
+                                  '(the function has changed since the invariant was written)' % name)
             raise PyRaise(UnboundLocalError("local variable '%s' referenced before assignment" % name))
         for d in reversed(frame.enclosing):
             if name in d:
@@ -346,6 +351,10 @@ class Interp:
         loc = {}
         args = list(args)
         kwargs = dict(kwargs)
+        renamed = getattr(info.node, '_pv_renamed_params', None)
+        if renamed:
+            # the function is interpreted with the parameter names of the pinned tree (frontend: renamed locals)
+            kwargs = {renamed.get(k, k): v for k, v in kwargs.items()}
         n = len(params)
         if len(args) > n and not a.vararg:
             raise PyRaise(TypeError('%s() takes %d positional arguments but %d were given'
@@ -1251,6 +1260,10 @@ class Interp:
             raise Unsupported('iteration via __getitem__')
         if isinstance(v, Sym):
             raise Unsupported('iteration over %r' % (v,))
+        if type(v).__module__.startswith('pyvc.'):
+            # a value of the engine that has no concrete iteration here: a limit of the verifier, never an
+            # exception of the interpreted program
+            raise Unsupported('iteration over an engine value of type %s' % type(v).__name__)
         try:
             return iter(v)
         except Exception as e:
